@@ -484,7 +484,7 @@ def close(a, b, tol):
     b = np.asarray(b, dtype=float)
     with np.errstate(all="ignore"):
         same_inf = np.isinf(a) & np.isinf(b) & (np.sign(a) == np.sign(b))
-        return same_inf | (np.abs(a - b) <= tol * (1 + np.abs(b)))
+        return same_inf | ((np.abs(a - b) <= tol * (1 + np.abs(b))) & np.isfinite(a) & np.isfinite(b))
 
 
 def maxdev(a, b):
